@@ -23,7 +23,7 @@ func main() {
 	run := kit.Start("C17", rule)
 	defer run.Finish()
 	const alphabet = "/.a%"
-	maxLen := run.Pick(9, 11)
+	maxLen := run.Pick(9, 12)
 	one(run, "")
 	var prefixes []string
 	for i := 0; i < 4; i++ {
@@ -54,7 +54,7 @@ func main() {
 	redirectGuard(run)
 	run.SetExtra("exhaustive_subspace", fmt.Sprintf("every string over %q up to length %d: enumerated completely", alphabet, maxLen))
 	pieces := []string{"/", "//", "a", "ab", ".", "..", "/./", "/../", "é", "日本", "%2F", "%2e", "a.b", "...", "x/", "/x", "..a", "a..", " "}
-	n := run.Pick(8000, 200000)
+	n := run.Pick(8000, 2000000)
 	run.Parallel(n/1000, func(b int) {
 		r := run.Rand(uint64(b))
 		for i := 0; i < 1000; i++ {
